@@ -147,16 +147,27 @@ Definition spec_remove (s : sstate) (q : seqid) (b e : Z) : sstate * option serr
     else if s_shift s then (with_cells s l, None)
     else (s, Some ENotSupported).
 
-(** ** CanResume *)
+(** ** CanResume (the repaired check, fixes/C06-canresume-window.patch: besides the comparison of the window starts,
+    every position of the new token's window below [p] must be present) *)
 Definition last_pos (s : sstate) (q : seqid) : Z :=
   fold_right Z.max (-1) (map a_pos (filter (has q) (s_cells s))).
+Definition count_pos (s : sstate) (q : seqid) (lo hi : Z) : Z :=
+  Z.of_nat (length (filter (fun a => has q a && (lo <=? a_pos a) && (a_pos a <? hi)) (s_cells s))).
 Definition spec_can_resume (s : sstate) (q : seqid) (p : Z) : bool :=
   match s_window s with
   | None => true
   | Some w =>
       let last := last_pos s q in
       if last =? -1 then false
-      else Z.max 0 (last - w) <=? Z.max 0 (p - w)
+      else (Z.max 0 (last - w) <=? Z.max 0 (p - w)) && (count_pos s q (Z.max 0 (p - w)) p =? p - Z.max 0 (p - w))
+  end.
+
+(** ** Remove as the interface prescribes it: "If an error occurs, the entire context for the sequence should be
+    removed by calling Remove(seq, 0, math.MaxInt32)" (kvcache/cache.go).  The error of the first call is reported. *)
+Definition spec_remove_c (s : sstate) (q : seqid) (b e : Z) : sstate * option serr :=
+  match spec_remove s q b e with
+  | (_, Some er) => (fst (spec_remove s q 0 MaxInt32), Some er)
+  | r => r
   end.
 
 (** ** operations as data, for histories *)
@@ -177,3 +188,11 @@ Definition spec_step (s : sstate) (o : sop) : sstate * sout :=
   end.
 
 Definition spec_run (s : sstate) (ops : list sop) : sstate := fold_left (fun s o => fst (spec_step s o)) ops s.
+
+(** the same with [Remove] followed by the prescribed clean-up when it fails *)
+Definition spec_pstep (s : sstate) (o : sop) : sstate * sout :=
+  match o with
+  | SRemove q b e => let '(s', r) := spec_remove_c s q b e in (s', OErr r)
+  | _ => spec_step s o
+  end.
+Definition spec_prun (s : sstate) (ops : list sop) : sstate := fold_left (fun s o => fst (spec_pstep s o)) ops s.
